@@ -194,6 +194,9 @@ class ClientSocket:
     def shutdown(self, how):
         if self.closed:
             raise OSError(errno.EBADF, "Bad file descriptor")
+        if self.fail_send and self.left:
+            # the peer has reset the connection: the socket is no longer connected
+            raise OSError(errno.ENOTCONN, "Transport endpoint is not connected")
 
     def close(self):
         self.net.owner.ip("close", self.cid)
